@@ -149,6 +149,7 @@ fn main() {
     let mut text_checked = 0u64;
     let mut text_changed_quote: Vec<String> = vec![];
     let mut text_changed_other: Vec<String> = vec![];
+    let mut text_changed_unexplained: Vec<String> = vec![];
     let mut text_print_panics = 0u64;
     for ictx in [ItemCtx::FactTerm, ItemCtx::RuleHead, ItemCtx::RuleBody, ItemCtx::CheckBody, ItemCtx::PolicyBody] {
         for tctx in term_ctxs(2) {
@@ -187,10 +188,23 @@ fn main() {
                             // a collection bound inside a set (`{[..]}`, `{{..}}`) is not accepted by the
                             // parser whatever its strings contain: that is the set class, not the quote class
                             let plain = matches!(v, PT::Lit(_));
+                            // the set class needs a set: in the value, or around the hole in the source
+                            fn has_set(t: &PT) -> bool {
+                                match t {
+                                    PT::Set(_) => true,
+                                    PT::Array(l) => l.iter().any(has_set),
+                                    PT::Map(m) => m.iter().any(|(_, x)| has_set(x)),
+                                    _ => false,
+                                }
+                            }
+                            let around = src.src().replace("{p}", "").replace("{q}", "").replace("{r}", "").replace("{k}", "").contains('{');
+                            let braces_alone = matches!(v, PT::Lit(Lit::Bool(_)) | PT::Lit(Lit::Null) | PT::Lit(Lit::Bytes(_)));
                             if has_q && plain {
                                 text_changed_quote.push(s)
-                            } else {
+                            } else if has_set(&v) || around || braces_alone {
                                 text_changed_other.push(s)
+                            } else {
+                                text_changed_unexplained.push(s)
                             }
                         }
                     }
@@ -276,7 +290,7 @@ fn main() {
     let strs = |v: &[String], n: usize| v.iter().take(n).map(|s| jstr(s)).collect::<Vec<_>>().join(", ");
     let files_s: Vec<String> = files.iter().chain(kfiles.iter()).map(|p| jstr(p)).collect();
     println!(
-        "{{\"family\": \"params\", \"evaluations\": {}, \"corpus\": {}, \"positions\": {}, \"positions_exhaustive\": true, \"position_depth\": 3, \"scopes\": {}, \"random\": {}, \"unparsable_skipped\": {}, \"unparsable_samples\": [{}], \"distinct_nontrivial\": {}, \"origin_histogram\": {{{}}}, \"outcome_histogram\": {{{}}}, \"item_kind_histogram\": {{{}}}, \"validated_then_panicked\": {}, \"class_nested_rule_param\": {}, \"class_bad_key_binding\": {}, \"impl_inconsistent\": {}, \"impl_inconsistencies\": [{}], \"cwp_checked\": {}, \"cwp_mismatches\": {}, \"cwp_mismatch_samples\": [{}], \"text_checked\": {}, \"text_print_panics\": {}, \"text_changed_quote\": {}, \"text_changed_quote_samples\": [{}], \"text_changed_other\": {}, \"text_changed_other_samples\": [{}], \"panics\": [], \"samples\": [{}], \"kernel_sample\": {}, \"files\": [{}]}}",
+        "{{\"family\": \"params\", \"evaluations\": {}, \"corpus\": {}, \"positions\": {}, \"positions_exhaustive\": true, \"position_depth\": 3, \"scopes\": {}, \"random\": {}, \"unparsable_skipped\": {}, \"unparsable_samples\": [{}], \"distinct_nontrivial\": {}, \"origin_histogram\": {{{}}}, \"outcome_histogram\": {{{}}}, \"item_kind_histogram\": {{{}}}, \"validated_then_panicked\": {}, \"class_nested_rule_param\": {}, \"class_bad_key_binding\": {}, \"impl_inconsistent\": {}, \"impl_inconsistencies\": [{}], \"cwp_checked\": {}, \"cwp_mismatches\": {}, \"cwp_mismatch_samples\": [{}], \"text_checked\": {}, \"text_print_panics\": {}, \"text_changed_quote\": {}, \"text_changed_quote_samples\": [{}], \"text_changed_other\": {}, \"text_changed_other_samples\": [{}], \"text_changed_unexplained\": {}, \"text_changed_unexplained_samples\": [{}], \"panics\": [], \"samples\": [{}], \"kernel_sample\": {}, \"files\": [{}]}}",
         runs.len(),
         n_corpus,
         n_positions,
@@ -302,6 +316,8 @@ fn main() {
         strs(&text_changed_quote, 3),
         text_changed_other.len(),
         strs(&text_changed_other, 5),
+        text_changed_unexplained.len(),
+        strs(&text_changed_unexplained, 5),
         samples.iter().map(|s| jstr(s)).collect::<Vec<_>>().join(", "),
         sample.len(),
         files_s.join(", ")
